@@ -330,7 +330,8 @@ fn dkim_canonicalize_headers<'a>(
     let mut covered_headers = Headers::new();
     for name in headers_list {
         if let Some(h) = mail_headers.find_header(name) {
-            let name = dkim_canonicalize_header_tag(name, canonicalization);
+            // The name is spelled as in the message, which is what a verifier sees
+            let name = dkim_canonicalize_header_tag(h.get_name(), canonicalization);
             covered_headers.insert_raw(HeaderValue::dangerous_new_pre_encoded(
                 HeaderName::new_from_ascii(name.into()).unwrap(),
                 h.get_raw().into(),
